@@ -14,11 +14,14 @@ FLOATS = ["0x1.8p+1", "0x0.0p+0", "-0x0.0p+0", "nan", "inf", "-inf", "0x1.999999
 
 
 class VGen:
-    def __init__(self, rnd, supported=True, share=0.08):
+    def __init__(self, rnd, supported=True, share=0.08, nasty=0.0):
         self.r = rnd
         self.sup = supported
         self.n_identity = 0
         self.share = share
+        # probability that a dict key / attribute name holds unprintable characters (line breaks, controls, lone surrogates:
+        # gen_archives.NASTY_CHARS).  C13 only; with 0.0 no extra random draw is made
+        self.nasty = nasty
 
     def ident(self):
         self.n_identity += 1
@@ -39,6 +42,9 @@ class VGen:
         return ["str", self.r.choice(STRS)]
 
     def key(self):
+        if self.nasty and self.r.random() < self.nasty:
+            from gen_archives import nasty_text
+            return ["str", nasty_text(self.r)]
         k = self.r.random()
         if k < 0.5:
             return ["str", self.r.choice(["a", "b", "c", "k1", "é", "x y"])]
@@ -174,6 +180,11 @@ class VGen:
         if c == 8 and self.r.random() < 0.2:
             self.ident()
             return ["list", [["userobj", "FreshState", [["db", ["float", (0.5 * (i + 1) * self.r.choice([1, -3, 7])).hex()]]]] for i in range(self.r.randint(2, 4))]]
+        if c == 8 and self.nasty and self.r.random() < self.nasty:
+            from gen_archives import nasty_text
+            self.ident()
+            # setattr(obj, name, v) takes any string: the attribute names are the keys of the dumped __dict__
+            return ["userobj", "Plain", [[nasty_text(self.r), self.scalar()], ["b", self.scalar()]][: self.r.randint(1, 2)]]
         if c == 8:
             self.ident()
             return ["userobj", self.r.choice(["Plain", "WithState", "Slotted", "ReduceCtor"]), [["a", self.scalar()], ["b", self.scalar()]][: self.r.randint(0, 2)]]
@@ -229,8 +240,8 @@ class VGen:
         return ["list", [self.value(depth - 1) for _ in range(n)]]
 
 
-def gen_value(rnd, supported=True, max_depth=3):
-    g = VGen(rnd, supported)
+def gen_value(rnd, supported=True, max_depth=3, nasty=0.0):
+    g = VGen(rnd, supported, nasty=nasty)
     return g.value(rnd.randint(0, max_depth))
 
 
